@@ -1213,7 +1213,9 @@ func (s *LoadingStore[K, V]) Get(ctx context.Context, key K) (V, error) {
 				loaded.Cost = s.cost(loaded.Value)
 			}
 
-			if err == nil {
+			// a value whose cost exceeds the cache size is returned to the caller
+			// but not stored, exactly as Set refuses it
+			if err == nil && loaded.Cost <= int64(s.cap) {
 				result = s.setShardWithoutLock(shard, h, key, loaded.Value, loaded.Cost, expire, false)
 				entryCost = loaded.Cost
 				entryExpire = expire
